@@ -152,7 +152,7 @@ static void check_case(const Config &c, long seed, Result &R, Totals &T,
   // the state must really have been changed by the photons, and the seed must matter
   if (snaps.size() >= 2) {
     const std::string &first = r[0].files[snaps.front()], &last = r[0].files[snaps.back()];
-    const std::string key = content_key(snaps.back(), last);
+    const std::string key = content_key(snaps.back(), last, true);
     const bool changed = first.size() != last.size() || first != last;
     bool seed_matters = true;
     for (auto &kv : final_by_seed) {
@@ -200,9 +200,14 @@ int main(int argc, char **argv) {
     return R.finish(A);
   }
   Totals T;
-  std::vector< long > seeds = {42, 1};
-  if (A.thorough())
+  // 16843050 = 2^24 + 2^16 + 2^8 + 42: a seed with a non-zero bit in every byte, so that a seed cut to 8, 16 or 24
+  // bits on its way to the generator is a different seed (42, 298, 65834); the seed alphabet proper is enumerated
+  // by c13_simseed
+  std::vector< long > seeds = {42, 1, 16843050};
+  if (A.thorough()) {
     seeds.push_back(123456789);
+    seeds.push_back(2147483647);
+  }
   if (!A.replay.empty()) {
     const std::string txt = read_file(A.replay);
     const std::string rp = replay_field(txt, "replay");
@@ -233,6 +238,9 @@ int main(int argc, char **argv) {
                    c.continuous ? "true" : "false");
     std::map< std::string, std::string > final_by_seed;
     for (long sd : seeds) {
+      // quick: the third seed only for every second configuration
+      if (!A.thorough() && sd == 16843050 && (ncfg % 2) == 0)
+        continue;
       if (R.out_of_time()) {
         R.hit_deadline(fmt("stopped before configuration %s seed %ld", c.name, sd));
         break;
@@ -245,6 +253,8 @@ int main(int argc, char **argv) {
   R.set("configurations_with_left_over_packets", (double)nleft);
   R.set_json("configuration_list", cfglist + "]");
   R.set("seeds_per_configuration", (double)seeds.size());
+  R.set_json("seeds", A.thorough() ? "[42, 1, 16843050, 123456789, 2147483647]"
+                                   : "{\"all configurations\": [42, 1], \"configurations 1,3,5,7,9 of the list\": [16843050]}");
   R.set("runs", (double)T.runs);
   R.set("snapshot_pairs_content", (double)T.snapshot_pairs);
   R.set("snapshot_pairs_bytes", (double)T.byte_pairs);
